@@ -481,6 +481,11 @@ func (c *Ctx) checkAuthHandlers(authPkg string) {
 				if mix := c.mixesRawCredentials(bo.X, f) + c.mixesRawCredentials(bo.Y, f); mix != "" {
 					bad = "username and password are joined into one value before being fingerprinted and compared (" + mix + "): the join is ambiguous at the boundary, so a different (username, password) pair can be accepted"
 				}
+				for _, side := range []ssa.Value{bo.X, bo.Y} {
+					if c.mentionsAppField(side, f, "Username") && c.mentionsAppField(side, f, "Password") {
+						bad = "one compared value is computed from both the presented username and the presented password (" + short(core.Term(side), 70) + "): the boundary between the two is not compared, so a different split of the same characters is accepted"
+					}
+				}
 				if c.mentionsAppField(bo.X, f, "Username") || c.mentionsAppField(bo.Y, f, "Username") {
 					userOK = true
 				}
